@@ -647,6 +647,29 @@ def run(ctx):
     ctx.cov["tables_by_width_order"] = {"%s%s" % k: v for k, v in sorted(tables.items())}
     ctx.cov["data_length_histogram"] = sizes
     ctx.cov["crc8_polynomials_exhaustive"] = 256
+    # model branches exercised (derived from the case lines: which definition of CrcDefs.v each op runs)
+    br = {"crc8_byte(m table)": 0, "crc8_byte(l table)": 0, "crcm_byte": 0, "crcl_byte": 0,
+          "crc_loop []": 0, "hash_str Some": 0, "hash_str None (no terminator)": 0, "hash_str_ptr NULL": kinds.get("N", 0),
+          "hash_len": kinds.get("H", 0) + kinds.get("K", 0), "a_rev": kinds.get("R", 0),
+          "m_init_entry": 0, "l_init_entry": 0}
+    for g in groups:
+        cw = cd = None
+        for ln in g:
+            tok = ln.split()
+            if tok[0] == "T":
+                cw, cd = tok[1], tok[2]
+                br["m_init_entry" if cd == "m" else "l_init_entry"] += 256
+            elif tok[0] in "CSPAX" and cw:
+                key = ("crc8_byte(%s table)" % cd) if cw == "8" else ("crcm_byte" if cd == "m" else "crcl_byte")
+                br[key] += 1
+                if tok[0] != "X" and tok[2] == "-":
+                    br["crc_loop []"] += 1
+            elif tok[0] == "Z":
+                br["hash_str Some" if (tok[3] != "-" and 0 in unhx(tok[3])) else "hash_str None (no terminator)"] += 1
+    ctx.cov["model_branch_ops"] = br
+    ctx.cov["model_branches_not_reached"] = [k for k, v in br.items() if v == 0] + \
+        ["tab_get None (out-of-range table read): unreachable with generated tables (theorems crc_table_eq_bits_*), "
+         "exercised only by Example short_table_fails"]
     for g in groups[n_corpus:n_corpus + 3] + groups[-1:]:
         ctx.sample({"case": [x[:100] for x in g[:2]]})
     # ---- search oracle when something broke
